@@ -46,6 +46,9 @@ def main():
         if prop == "C20":
             import props_hash
             return props_hash.run(prop, tier)
+        if prop == "C10":
+            import props_untyped
+            return props_untyped.run(prop, tier)
         print("unknown property", prop)
         return 2
     except (common.MachineryError, tlcrun.TLCError) as e:
